@@ -28,7 +28,7 @@ MIN_EVENTS = {"quick": {"evaluations": 15000, "history_agree": 8000, "codec_agre
 
 
 def n_cases(tier):
-    return 900 if tier == "quick" else 25000
+    return 2400 if tier == "quick" else 40000
 
 
 class MergeBroken(Exception):
@@ -275,6 +275,8 @@ class NT(NamedTuple):
 class In:
     d: datetime.date = datetime.date(2000, 1, 1)
     al: int = field(default=3, metadata=field_options(alias='AL'))
+    class Config(BaseConfig):
+        allow_deserialization_not_by_alias = True
 @dataclass
 class A:
     x: int = field(metadata=field_options(alias='X'))
@@ -284,6 +286,8 @@ class A:
     s: str = 'dflt'
     inner: In = field(default_factory=In)
     l: List[datetime.date] = field(default_factory=list)
+    class Config(BaseConfig):
+        allow_deserialization_not_by_alias = True
 '''
 
 
@@ -329,7 +333,9 @@ def part_b(seed, tier, rec, rng):
                 rec.evaluation()
                 try:
                     basic_doc = ref_enc.encode(v)
-                    if fname == "toml":
+                    if fname == "toml" and spec["opts"].get("omit_none") is not False:
+                        # TOML's own requirement (no nulls) unless the user dialect explicitly overrides it,
+                        # in which case a null is simply not representable (tomli_w refuses it)
                         basic_doc = drop_none(basic_doc)
                     exp = parse(dump(basic_doc)) if fname != "basic" else basic_doc
                 except Exception:
